@@ -166,18 +166,23 @@ fn op_owned<K: OwnKind>(text: &str) -> String {
         Ok(v) => v,
         Err(()) => return err(),
     };
-    let o1 = obs::to_s(|o| K::obs(&v, o));
+    owned_line::<K>(&v)
+}
+
+/// `into_owned()` and `clone()` of a value that is already there, against the value
+pub(crate) fn owned_line<'a, K: OwnKind>(v: &K::Out<'a>) -> String {
+    let o1 = obs::to_s(|o| K::obs(v, o));
     let t1 = v.to_string();
 
     let w = K::into_owned(v.clone());
     let ow = obs::to_s(|o| K::obs(&w, o));
     let tw = w.to_string();
-    let ew = K::eq_owned(&v, &w);
+    let ew = K::eq_owned(v, &w);
 
     let c = v.clone();
     let oc = obs::to_s(|o| K::obs(&c, o));
     let tc = c.to_string();
-    let ec = v == c;
+    let ec = *v == c;
 
     let mut out = String::from("ok ");
     out.push_str(&o1);
@@ -329,6 +334,40 @@ fn op_media(text: &str, roundtrip: bool) -> String {
     match MediaPlaylist::try_from(text) {
         Ok(p) => media_response(&p, roundtrip),
         Err(_) => err(),
+    }
+}
+
+/// `cmp_entry`: the same text through `TryFrom<&str>`, `FromStr` and a default builder's `parse`: the three values must be `==`
+/// to each other (E:), and so must their clones / owned forms (X:)
+fn op_cmp_entry(text: &str) -> String {
+    let a = match MediaPlaylist::try_from(text) {
+        Ok(p) => p,
+        Err(_) => return err(),
+    };
+    let b: MediaPlaylist<'static> = match text.parse() {
+        Ok(p) => p,
+        Err(_) => return err(),
+    };
+    let c = match MediaPlaylist::builder().parse(text) {
+        Ok(p) => p,
+        Err(_) => return err(),
+    };
+    let e = a == b && b == a && a == c && c == a && b == c;
+    let x = a.clone().into_owned() == b && a.clone() == c.clone().into_owned() && b.clone() == a;
+    let mut out = String::from("ok ");
+    out.push_str(&obs::to_s(|o| obs::media(o, &a)));
+    out.push_str(" E:");
+    out.push(b_(e));
+    out.push_str(" X:");
+    out.push(b_(x));
+    out
+}
+
+fn b_(x: bool) -> char {
+    if x {
+        '1'
+    } else {
+        '0'
     }
 }
 
@@ -681,6 +720,7 @@ pub fn dispatch(op: &str, payload: &str, args: &[&str]) -> String {
         "striptag" => return op_striptag(payload, args),
         "media" => return op_media(payload, false),
         "media_fromstr" => return op_media_fromstr(payload),
+        "cmp_entry" => return op_cmp_entry(payload),
         "media_builder" => return op_media_builder(payload, args),
         "rt_media" => return op_media(payload, true),
         "master" => return op_master(payload, false),
@@ -698,6 +738,7 @@ pub fn dispatch(op: &str, payload: &str, args: &[&str]) -> String {
         "par" => return op_par(payload, args),
         "build_media" => return crate::builders::op_build_media(payload),
         "build_master" => return crate::builders::op_build_master(payload),
+        "owned_build_media" => return crate::builders::op_owned_build_media(payload),
         "cmp_build_media" => {
             return match args.first().and_then(|a| hexs::decode_text(a)) {
                 Some(other) => crate::builders::op_cmp_build_media(payload, &other),
